@@ -333,9 +333,13 @@ class Driver(GenericAdapter):
         if has_none:
             res["sorted"] = MARK
             res["sortedvalues"] = MARK
+            res["sorted_rev"] = res["sorted_byval"] = res["sortedvalues_rev"] = MARK
         else:
             g("sorted", lambda: pl(o.sorted().items(multi=True)))
             g("sortedvalues", lambda: pl(o.sortedvalues().items(multi=True)))
+            g("sorted_rev", lambda: pl(o.sorted(reverse=True).items(multi=True)))
+            g("sorted_byval", lambda: pl(o.sorted(key=lambda item: item[1]).items(multi=True)))
+            g("sortedvalues_rev", lambda: pl(o.sortedvalues(reverse=True).items(multi=True)))
         eq = {}
 
         def e(name, other, refl=True):
@@ -354,11 +358,45 @@ class Driver(GenericAdapter):
                 raise
             except Exception as ex:
                 eq[name] = "raised:" + core.exc_name(ex)
+        def kinds(name, d):
+            """the same mapping content handed over as the other mapping types a caller may hold: all must get the
+            answer the plain dict gets"""
+            import collections
+            import types
+
+            class ReadOnly(collections.abc.Mapping):
+                def __init__(self, d_):
+                    self._d = d_
+
+                def __getitem__(self, k_):
+                    return self._d[k_]
+
+                def __iter__(self):
+                    return iter(self._d)
+
+                def __len__(self):
+                    return len(self._d)
+            first = eq.get(name)
+            for label, other in (("OrderedDict", collections.OrderedDict(d)), ("mappingproxy", types.MappingProxyType(dict(d))),
+                                 ("Mapping", ReadOnly(dict(d))), ("UserDict", collections.UserDict(d))):
+                # (asked of the OMD only: with such an operand on the left its own __eq__ answers, e.g. OrderedDict
+                # compares the dict storage)
+                e(name, other, refl=False)
+                if eq.get(name) != first:
+                    eq[name] = "as-%s:%r-but-as-dict:%r" % (label, eq.get(name), first)
+                    return
         if raw is not None:
             same = self.cls()
             for a, b in raw:
                 same.add(a, b)
             e("same_omd", same)
+            if eq.get("same_omd") is True:
+                e("same_omd", o)                            # the object itself
+            if eq.get("same_omd") is True:
+                sub = type("Sub", (self.cls,), {})()          # an instance of a subclass with the same pairs
+                for a, b in raw:
+                    sub.add(a, b)
+                e("same_omd", sub)
             rev = self.cls()
             for a, b in reversed(raw):
                 rev.add(a, b)
@@ -383,15 +421,18 @@ class Driver(GenericAdapter):
             for a, b in raw:
                 vis[a] = b
             e("same_dict", dict(vis))
+            kinds("same_dict", vis)
             dv = dict(vis)
             if dv:
                 k0 = next(iter(dv))
                 dv[k0] = ("some", "other", "value")
             e("diffval_dict", dv)
+            kinds("diffval_dict", dv)
             mk = dict(vis)
             if mk:
                 del mk[next(iter(mk))]
             e("missing_key_dict", mk)
+            kinds("missing_key_dict", mk)
             ren_any = False
             for kk in list(vis):
                 rn = {(("renamed", "key") if a is kk else a): b for a, b in vis.items()}
@@ -403,6 +444,7 @@ class Driver(GenericAdapter):
             xk = dict(vis)
             xk[("extra", "key")] = 1
             e("extra_key_dict", xk)
+            kinds("extra_key_dict", xk)
             e("non_mapping", 5, refl=False)
             if eq.get("non_mapping") is False:
                 e("non_mapping", list(raw), refl=False)
@@ -490,7 +532,7 @@ def sanitize(traces):
     never equal the specification's value."""
     def fix_obs(o):
         out = {}
-        for k in ("items_t", "items_f", "todict_f", "counts", "inverted", "sorted", "sortedvalues"):
+        for k in ("items_t", "items_f", "todict_f", "counts", "inverted", "sorted", "sortedvalues", "sorted_rev", "sorted_byval", "sortedvalues_rev"):
             v = o.get(k)
             out[k] = v if isinstance(v, list) and all(isinstance(p, list) and len(p) == 2 and all(isinstance(x, int) for x in p) for p in v) else [[-7, -7]]
         for k in ("keys_t", "keys_f", "values_t", "values_f", "iter", "reversed"):
